@@ -9,6 +9,7 @@ import (
 	"sort"
 	"strings"
 	"sync"
+	"sync/atomic"
 	"testing"
 	"time"
 
@@ -32,6 +33,7 @@ type C13Client struct {
 type C13Case struct {
 	Mode     Mode        `json:"mode"` // ModeSJ ModeSS ModeLJ ModeLS ModeLegacy
 	CtxFuncs int         `json:"ctxfuncs"`
+	IDGen    bool        `json:"idgen,omitempty"` // legacy SSE: the application supplies the session ids; ids of different clients may differ in the case of letters only
 	Clients  []C13Client `json:"clients"`
 	InPlace  bool        `json:"inplace"`          // filters compact the slice they are handed in place (user code may)
 	Repeat   int         `json:"repeat,omitempty"` // every client runs its request list this many more times (bursts of concurrent lists)
@@ -41,6 +43,7 @@ type C13Case struct {
 
 func genC13(t *rapid.T) C13Case {
 	c := C13Case{Mode: rapid.SampledFrom([]Mode{ModeSJ, ModeSS, ModeLJ, ModeLS, ModeLegacy}).Draw(t, "mode"), CtxFuncs: rapid.IntRange(1, 3).Draw(t, "ctxfuncs"), InPlace: rapid.Bool().Draw(t, "inplace")}
+	c.IDGen = c.Mode == ModeLegacy && rapid.Bool().Draw(t, "idgen")
 	n := rapid.IntRange(2, 10).Draw(t, "nclients")
 	for i := 0; i < n; i++ {
 		cl := C13Client{Class: rapid.SampledFrom([]string{"a", "b", "c", "n"}).Draw(t, "class")} // class n is admitted to nothing at all
@@ -79,6 +82,14 @@ func admits(class, name string) bool {
 		return false
 	}
 	return strings.HasPrefix(name, class+"-") || strings.HasPrefix(name, "pub-") || strings.HasPrefix(name, "file:///"+class+"-") || strings.HasPrefix(name, "file:///pub-")
+}
+
+// c13IDGen hands out application-chosen session ids: four in a row differ only in the case of two letters.
+type c13IDGen struct{ n atomic.Int64 }
+
+func (g *c13IDGen) GenerateSessionID(r *http.Request) string {
+	n := g.n.Add(1) - 1
+	return fmt.Sprintf("client-%d-%s", n/4, []string{"alice", "Alice", "aLICE", "ALICE"}[n%4])
 }
 
 func execC13(c C13Case) *Failure {
@@ -172,6 +183,9 @@ func execC13(c C13Case) *Failure {
 		// and the one given last is among them
 		for i := 0; i < nfuncs; i++ {
 			opt.SSEOpts = append(opt.SSEOpts, mcp.WithSSEContextFunc(ctxFunc(i)))
+		}
+		if c.IDGen {
+			opt.SSEOpts = append(opt.SSEOpts, mcp.WithSSESessionIDGenerator(&c13IDGen{}))
 		}
 		if c.NoFilter&1 == 0 {
 			opt.SSEOpts = append(opt.SSEOpts, mcp.WithSSEToolListFilter(toolFilter))
